@@ -83,6 +83,14 @@ Definition number (c : N) (s : text) : lexres :=
       | Some k => tok k (ds ++ a) rest'
       | None => tok T_Id (ds ++ a) rest'
       end
+    (* `0b` / `0x` not followed by a digit of that base: a digit-leading identifier (fix 35af9d5);
+       base <> 10 implies c = '0' and cursor = start + 2 iff no digit was eaten *)
+    else if negb (base =? 10) && (match ds with [] => true | _ :: _ => false end) then
+      let '(a, rest') := eat_while is_identifier_continue rest in
+      match lookup keyword_table (c :: pfx ++ a) with
+      | Some k => tok k (pfx ++ a) rest'
+      | None => tok T_Id (pfx ++ a) rest'
+      end
     else if interpret_ok base sign digits then
       tok (if base =? 2 then T_BinaryIntVal else T_IntVal) (pfx ++ ds) rest
     else
